@@ -77,13 +77,11 @@ Qed.
 
 Lemma co_resume_reg_from : forall k vals s r s', Inv s -> co_resume k vals s = (r, s') -> reg_from s s'.
 Proof.
-  intros k vals s r s' I H. unfold co_resume in H.
-  destruct (match vals with [] => (COk, s) | _ :: _ => co_push k vals s end) as [r1 s1] eqn:P.
+  intros k vals s r s' I H.
+  destruct (co_resume_cases _ _ _ _ _ I H) as [(-> & s1 & P & R)|(_ & ->)]; [|apply reg_from_refl].
   assert (R1 : reg_from s s1).
   { destruct vals; [inversion P; subst; apply reg_from_refl|].
     apply same_ctl_reg_from. eapply co_push_same; eauto. }
-  destruct r1; try (inversion H; subst; assumption).
-  destruct (mco_resume k s1) as [e s2] eqn:R. inversion H; subst.
   eapply reg_from_trans; [exact R1|]. eapply mco_resume_reg_from; eauto.
 Qed.
 
